@@ -1,4 +1,9 @@
 import Pixman.Spec.PointSet
+import Pixman.Spec.Canon
+import Pixman.Lemmas.RegionBand
+import Pixman.Lemmas.RegionSweep
+import Pixman.Lemmas.RegionOps
+import Pixman.Lemmas.RegionValidate
 /-! C05 — region operations are exact set algebra: property theorems. -/
 namespace Pixman.Props.C05
 open Pixman.Region
@@ -17,5 +22,390 @@ theorem splitBand_append (l : List Box) : (splitBand l).1 ++ (splitBand l).2 = l
   cases l with
   | nil => simp [splitBand]
   | cons b t => simp [splitBand, go]
+
+/-! ## 1. band procedures (1-D) -/
+
+/-- two concrete separated span lists used by the non-vacuity examples -/
+def exA : List Box := [⟨0, 0, 4, 1⟩, ⟨6, 0, 9, 1⟩, ⟨12, 0, 13, 1⟩]
+def exB : List Box := [⟨2, 0, 7, 1⟩, ⟨9, 0, 12, 1⟩]
+theorem exA_sep : SpansSep exA := by simp [exA, SpansSep]
+theorem exB_sep : SpansSep exB := by simp [exB, SpansSep]
+
+/-- pixman_region_intersect_o computes the intersection of the x-projections. -/
+theorem interO_inSpans (y1 y2 : Int) (a b : List Box) (ha : SpansSep a) (hb : SpansSep b) (x : Int) :
+    InSpans (interO y1 y2 a b) x ↔ InSpans a x ∧ InSpans b x := by
+  obtain ⟨v, hv⟩ := (spansSep_iff a).1 ha
+  obtain ⟨w, hw⟩ := (spansSep_iff b).1 hb
+  exact Pixman.Region.interO_inSpans y1 y2 a b v w hv hw x
+
+example (x : Int) : InSpans (interO 5 8 exA exB) x ↔ InSpans exA x ∧ InSpans exB x :=
+  interO_inSpans 5 8 exA exB exA_sep exB_sep x
+example : interO 5 8 exA exB = [⟨2, 5, 4, 8⟩, ⟨6, 5, 7, 8⟩] := by simp [interO, exA, exB]; decide
+
+/-- every box produced by intersect_o has the vertical extent `(y1,y2)`. -/
+theorem interO_yExtent (y1 y2 : Int) (a b : List Box) :
+    ∀ r ∈ interO y1 y2 a b, r.y1 = y1 ∧ r.y2 = y2 := interO_allY y1 y2 a b
+
+/-- the output of intersect_o is again separated. -/
+theorem interO_spansSep (y1 y2 : Int) (a b : List Box) (ha : SpansSep a) (hb : SpansSep b) :
+    SpansSep (interO y1 y2 a b) := by
+  obtain ⟨v, hv⟩ := (spansSep_iff a).1 ha
+  obtain ⟨w, hw⟩ := (spansSep_iff b).1 hb
+  exact (interO_sep y1 y2 a b v w hv hw).spansSep
+
+example : SpansSep (interO 5 8 exA exB) := interO_spansSep 5 8 exA exB exA_sep exB_sep
+
+/-- pixman_region_union_o computes the union of the x-projections. -/
+theorem unionO_inSpans (y1 y2 : Int) (a b : List Box) (ha : SpansSep a) (hb : SpansSep b)
+    (hna : a ≠ []) (hnb : b ≠ []) (x : Int) :
+    InSpans (unionO y1 y2 a b) x ↔ InSpans a x ∨ InSpans b x :=
+  Pixman.Region.unionO_inSpans y1 y2 a b ha hb hna hnb x
+
+example (x : Int) : InSpans (unionO 5 8 exA exB) x ↔ InSpans exA x ∨ InSpans exB x :=
+  unionO_inSpans 5 8 exA exB exA_sep exB_sep (by simp [exA]) (by simp [exB]) x
+example : unionO 5 8 exA exB = [⟨0, 5, 13, 8⟩] := by simp [unionO, mergeAll, exA, exB]
+
+theorem unionO_yExtent (y1 y2 : Int) (a b : List Box) :
+    ∀ r ∈ unionO y1 y2 a b, r.y1 = y1 ∧ r.y2 = y2 := unionO_allY y1 y2 a b
+
+/-- the output of union_o is maximal: consecutive boxes are separated by a gap. -/
+theorem unionO_spansSep (y1 y2 : Int) (a b : List Box) (ha : SpansSep a) (hb : SpansSep b)
+    (hna : a ≠ []) (hnb : b ≠ []) : SpansSep (unionO y1 y2 a b) :=
+  overlapO_sep .union y1 y2 a b ha hb hna hnb
+
+example : SpansSep (unionO 5 8 exA exB) :=
+  unionO_spansSep 5 8 exA exB exA_sep exB_sep (by simp [exA]) (by simp [exB])
+
+/-- pixman_region_subtract_o (as called by pixman_op: the fence starts at the first minuend
+    box) computes the difference of the x-projections. -/
+theorem subO_inSpans (y1 y2 : Int) (a0 : Box) (as b : List Box) (ha : SpansSep (a0 :: as))
+    (hb : SpansSep b) (x : Int) :
+    InSpans (subO y1 y2 a0.x1 (a0 :: as) b) x ↔ InSpans (a0 :: as) x ∧ ¬ InSpans b x := by
+  obtain ⟨w, hw⟩ := (spansSep_iff b).1 hb
+  have ⟨h1, h2⟩ := (spansSep_cons' _ _).1 ha
+  rw [Pixman.Region.subO_inSpans y1 y2 a0.x1 (a0 :: as) b w ⟨h1, h2⟩ hw x]
+  simp only [SubSem, inSpans_cons']
+
+example (x : Int) : InSpans (subO 5 8 0 exA exB) x ↔ InSpans exA x ∧ ¬ InSpans exB x :=
+  subO_inSpans 5 8 ⟨0, 0, 4, 1⟩ _ exB exA_sep exB_sep x
+example : subO 5 8 0 exA exB = [⟨0, 5, 2, 8⟩, ⟨7, 5, 9, 8⟩, ⟨12, 5, 13, 8⟩] := by simp [subO, exA, exB]
+
+theorem subO_yExtent (y1 y2 x1 : Int) (a b : List Box) :
+    ∀ r ∈ subO y1 y2 x1 a b, r.y1 = y1 ∧ r.y2 = y2 := subO_allY y1 y2 x1 a b
+
+theorem subO_spansSep (y1 y2 : Int) (a0 : Box) (as b : List Box) (ha : SpansSep (a0 :: as))
+    (hb : SpansSep b) : SpansSep (subO y1 y2 a0.x1 (a0 :: as) b) := by
+  obtain ⟨w, hw⟩ := (spansSep_iff b).1 hb
+  have ⟨h1, h2⟩ := (spansSep_cons' _ _).1 ha
+  exact (subO_sep y1 y2 a0.x1 (a0 :: as) b (a0.x1 - 1) w (by omega) ⟨h1, h2⟩ hw).spansSep
+
+example : SpansSep (subO 5 8 0 exA exB) := subO_spansSep 5 8 ⟨0, 0, 4, 1⟩ _ exB exA_sep exB_sep
+
+/-- the overlap procedure dispatched by `overlapO`, all three operations at once -/
+theorem overlapO_inSpans (k : OpKind) (y1 y2 : Int) (a b : List Box) (ha : SpansSep a)
+    (hb : SpansSep b) (hna : a ≠ []) (hnb : b ≠ []) (x : Int) :
+    InSpans (overlapO k y1 y2 a b) x ↔ k.sem (InSpans a x) (InSpans b x) :=
+  Pixman.Region.overlapO_inSpans k y1 y2 a b ha hb hna hnb x
+
+example (x : Int) : InSpans (overlapO .sub 5 8 exA exB) x ↔ InSpans exA x ∧ ¬ InSpans exB x :=
+  overlapO_inSpans .sub 5 8 exA exB exA_sep exB_sep (by simp [exA]) (by simp [exB]) x
+
+theorem overlapO_yExtent (k : OpKind) (y1 y2 : Int) (a b : List Box) :
+    ∀ r ∈ overlapO k y1 y2 a b, r.y1 = y1 ∧ r.y2 = y2 := overlapO_allY k y1 y2 a b
+
+theorem overlapO_spansSep (k : OpKind) (y1 y2 : Int) (a b : List Box) (ha : SpansSep a)
+    (hb : SpansSep b) (hna : a ≠ []) (hnb : b ≠ []) : SpansSep (overlapO k y1 y2 a b) :=
+  overlapO_sep k y1 y2 a b ha hb hna hnb
+
+/-! ## 2. the sweep of pixman_op -/
+
+/-- two concrete canonical lists (two and three bands) used by the non-vacuity examples -/
+def exL1 : List Box := [⟨0, 0, 10, 5⟩, ⟨0, 5, 4, 9⟩, ⟨6, 5, 10, 9⟩]
+def exL2 : List Box := [⟨2, 3, 8, 7⟩, ⟨2, 7, 5, 12⟩, ⟨20, 12, 30, 13⟩]
+theorem exL1_canon : CanonList exL1 :=
+  ⟨[(0, 5, [⟨0, 0, 10, 5⟩]), (5, 9, [⟨0, 5, 4, 9⟩, ⟨6, 5, 10, 9⟩])],
+    by simp [BandsOK, IsBand, SpansSep, SameSpans], rfl⟩
+theorem exL2_canon : CanonList exL2 :=
+  ⟨[(3, 7, [⟨2, 3, 8, 7⟩]), (7, 12, [⟨2, 7, 5, 12⟩]), (12, 13, [⟨20, 12, 30, 13⟩])],
+    by simp [BandsOK, IsBand, SpansSep, SameSpans], rfl⟩
+
+/-- pixman_op with union_o: the points of the result are the union. -/
+theorem pixmanOpRects_union (a b : List Box) (ha : CanonList a) (hb : CanonList b)
+    (hna : a ≠ []) (hnb : b ≠ []) (x y : Int) :
+    MemL (pixmanOpRects .union true true a b) x y ↔ MemL a x y ∨ MemL b x y :=
+  (pixmanOpRects_spec .union true true (Or.inl ⟨rfl, rfl, rfl⟩) a b ha hb hna hnb).2 x y
+
+example (x y : Int) :
+    MemL (pixmanOpRects .union true true exL1 exL2) x y ↔ MemL exL1 x y ∨ MemL exL2 x y :=
+  pixmanOpRects_union exL1 exL2 exL1_canon exL2_canon (by simp [exL1]) (by simp [exL2]) x y
+
+/-- pixman_op with intersect_o: the points of the result are the intersection. -/
+theorem pixmanOpRects_inter (a b : List Box) (ha : CanonList a) (hb : CanonList b)
+    (hna : a ≠ []) (hnb : b ≠ []) (x y : Int) :
+    MemL (pixmanOpRects .inter false false a b) x y ↔ MemL a x y ∧ MemL b x y :=
+  (pixmanOpRects_spec .inter false false (Or.inr (Or.inl ⟨rfl, rfl, rfl⟩)) a b ha hb hna hnb).2 x y
+
+example (x y : Int) :
+    MemL (pixmanOpRects .inter false false exL1 exL2) x y ↔ MemL exL1 x y ∧ MemL exL2 x y :=
+  pixmanOpRects_inter exL1 exL2 exL1_canon exL2_canon (by simp [exL1]) (by simp [exL2]) x y
+
+/-- pixman_op with subtract_o: the points of the result are the difference. -/
+theorem pixmanOpRects_sub (a b : List Box) (ha : CanonList a) (hb : CanonList b)
+    (hna : a ≠ []) (hnb : b ≠ []) (x y : Int) :
+    MemL (pixmanOpRects .sub true false a b) x y ↔ MemL a x y ∧ ¬ MemL b x y :=
+  (pixmanOpRects_spec .sub true false (Or.inr (Or.inr ⟨rfl, rfl, rfl⟩)) a b ha hb hna hnb).2 x y
+
+example (x y : Int) :
+    MemL (pixmanOpRects .sub true false exL1 exL2) x y ↔ MemL exL1 x y ∧ ¬ MemL exL2 x y :=
+  pixmanOpRects_sub exL1 exL2 exL1_canon exL2_canon (by simp [exL1]) (by simp [exL2]) x y
+
+/-- the output of pixman_op is canonical (COALESCE merges exactly the vertically touching bands
+    with identical spans; the tail is appended as is). -/
+theorem pixmanOpRects_canon (k : OpKind) (app1 app2 : Bool) (hk : Compat k app1 app2)
+    (a b : List Box) (ha : CanonList a) (hb : CanonList b) (hna : a ≠ []) (hnb : b ≠ []) :
+    CanonList (pixmanOpRects k app1 app2 a b) :=
+  (pixmanOpRects_spec k app1 app2 hk a b ha hb hna hnb).1
+
+example : CanonList (pixmanOpRects .sub true false exL1 exL2) :=
+  pixmanOpRects_canon .sub true false (Or.inr (Or.inr ⟨rfl, rfl, rfl⟩)) exL1 exL2 exL1_canon
+    exL2_canon (by simp [exL1]) (by simp [exL2])
+
+/-- the fuel given to the loop of pixman_op in `pixmanOpRects` is enough: the loop ends because
+    one of the two lists is exhausted, not because the fuel ran out. -/
+theorem sweep_fuel_enough (k : OpKind) (app1 app2 : Bool) (hk : Compat k app1 app2)
+    (a b : List Box) (ha : CanonList a) (hb : CanonList b) (hna : a ≠ []) (hnb : b ≠ []) :
+    let s := sweep k app1 app2 (2 * (a.length + b.length) + 2)
+      ⟨a, b, min (headY1 a) (headY1 b), ⟨[], []⟩⟩
+    s.r1 = [] ∨ s.r2 = [] := by
+  obtain ⟨bsa, hBa, ea⟩ := ha
+  obtain ⟨bsb, hBb, eb⟩ := hb
+  cases bsa with
+  | nil => exact absurd ea hna
+  | cons ba ta =>
+  cases bsb with
+  | nil => exact absurd eb hnb
+  | cons bb tb =>
+  have ea' : a = flat' (ba :: ta) := ea
+  have eb' : b = flat' (bb :: tb) := eb
+  have e1 : headY1 a = ba.1 := by rw [ea']; exact headY1_flat hBa
+  have e2 : headY1 b = bb.1 := by rw [eb']; exact headY1_flat hBb
+  have hla := ((bandsOK_cons' _ _).1 hBa).1.lt
+  have hlb := ((bandsOK_cons' _ _).1 hBb).1.lt
+  have hI0 : SInv ⟨a, b, min ba.1 bb.1, ⟨[], []⟩⟩ :=
+    ⟨ba :: ta, bb :: tb, ea', hBa, eb', hBb,
+      fun b t e => by cases e; simp only; omega, fun b t e => by cases e; simp only; omega,
+      fun b1 t1 b2 t2 e1 e2 => by cases e1; cases e2; simp only; omega, OutOK.init _⟩
+  have := (sweep_spec k app1 app2 hk (2 * (a.length + b.length) + 2) _ hI0 (by
+    show a.length + b.length ≤ _; omega)).2.1
+  rw [← e1, ← e2] at this
+  exact this
+
+example : (sweep .union true true (2 * (exL1.length + exL2.length) + 2)
+    ⟨exL1, exL2, min (headY1 exL1) (headY1 exL2), ⟨[], []⟩⟩).r1 = [] ∨
+    (sweep .union true true (2 * (exL1.length + exL2.length) + 2)
+    ⟨exL1, exL2, min (headY1 exL1) (headY1 exL2), ⟨[], []⟩⟩).r2 = [] :=
+  sweep_fuel_enough .union true true (Or.inl ⟨rfl, rfl, rfl⟩) exL1 exL2 exL1_canon exL2_canon
+    (by simp [exL1]) (by simp [exL2])
+
+
+/-! ## 3. the public operations on canonical region objects
+
+Each theorem: the call succeeds (no-failure world), the result is canonical (in particular its
+extents are the tight bounding box), and its points are exactly the set-algebra result.
+`same` says that both operands are the same object; `al` which operand the destination is. -/
+
+/-- two concrete canonical multi-rectangle regions used by the non-vacuity examples -/
+def exR1 : Region := ⟨⟨0, 0, 10, 9⟩, .heap exL1⟩
+def exR2 : Region := ⟨⟨2, 3, 30, 13⟩, .heap exL2⟩
+theorem exR1_canon : Canon exR1 :=
+  ⟨by decide, exL1_canon, by simp [IsBBox, exL1, exR1]⟩
+theorem exR2_canon : Canon exR2 :=
+  ⟨by decide, exL2_canon, by simp [IsBBox, exL2, exR2]⟩
+
+/-- pixman_region_union -/
+theorem union_exact (same : Bool) (al : Alias) (d a b : Region) (ha : Canon a) (hb : Canon b)
+    (hs : same = true → a = b) (h1 : al = .first → d = a) (h2 : al = .second → d = b) :
+    (union same al d a b).2 = true ∧ Canon (union same al d a b).1 ∧
+    ∀ x y, (union same al d a b).1.Mem x y ↔ a.Mem x y ∨ b.Mem x y :=
+  union_spec same al d a b ha hb hs h1 h2
+
+example : (union false .first exR1 exR1 exR2).2 = true ∧ Canon (union false .first exR1 exR1 exR2).1 ∧
+    ∀ x y, (union false .first exR1 exR1 exR2).1.Mem x y ↔ exR1.Mem x y ∨ exR2.Mem x y :=
+  union_exact false .first exR1 exR1 exR2 exR1_canon exR2_canon (fun e => by cases e) (fun _ => rfl)
+    (fun e => by cases e)
+
+/-- pixman_region_intersect -/
+theorem intersect_exact (same : Bool) (d a b : Region) (ha : Canon a) (hb : Canon b)
+    (hs : same = true → a = b) :
+    (intersect same d a b).2 = true ∧ Canon (intersect same d a b).1 ∧
+    ∀ x y, (intersect same d a b).1.Mem x y ↔ a.Mem x y ∧ b.Mem x y :=
+  intersect_spec same d a b ha hb hs
+
+example : (intersect false exR2 exR1 exR2).2 = true ∧ Canon (intersect false exR2 exR1 exR2).1 ∧
+    ∀ x y, (intersect false exR2 exR1 exR2).1.Mem x y ↔ exR1.Mem x y ∧ exR2.Mem x y :=
+  intersect_exact false exR2 exR1 exR2 exR1_canon exR2_canon (fun e => by cases e)
+
+/-- pixman_region_subtract (`same`: minuend and subtrahend are the same object, result empty) -/
+theorem subtract_exact (same : Bool) (d m s : Region) (hm : Canon m) (hs : Canon s)
+    (hsame : same = true → m = s) :
+    (subtract same d m s).2 = true ∧ Canon (subtract same d m s).1 ∧
+    ∀ x y, (subtract same d m s).1.Mem x y ↔ m.Mem x y ∧ ¬ s.Mem x y :=
+  subtract_spec same d m s hm hs hsame
+
+example : (subtract false init exR1 exR2).2 = true ∧ Canon (subtract false init exR1 exR2).1 ∧
+    ∀ x y, (subtract false init exR1 exR2).1.Mem x y ↔ exR1.Mem x y ∧ ¬ exR2.Mem x y :=
+  subtract_exact false init exR1 exR2 exR1_canon exR2_canon (fun e => by cases e)
+example : ∀ x y, ¬ (subtract true exR1 exR1 exR1).1.Mem x y := fun x y h =>
+  absurd ((subtract_exact true exR1 exR1 exR1 exR1_canon exR1_canon (fun _ => rfl)).2.2 x y |>.1 h).1
+    ((subtract_exact true exR1 exR1 exR1 exR1_canon exR1_canon (fun _ => rfl)).2.2 x y |>.1 h).2
+
+/-- pixman_region_inverse: `invRect` minus the region (for a non-degenerate `invRect`) -/
+theorem inverse_exact (d a : Region) (invRect : Box) (ha : Canon a)
+    (hg : goodRect invRect = true) :
+    (inverse d a invRect).2 = true ∧ Canon (inverse d a invRect).1 ∧
+    ∀ x y, (inverse d a invRect).1.Mem x y ↔ invRect.Mem x y ∧ ¬ a.Mem x y :=
+  inverse_spec d a invRect ha hg
+
+example : (inverse init exR1 ⟨-3, 2, 8, 20⟩).2 = true ∧ Canon (inverse init exR1 ⟨-3, 2, 8, 20⟩).1 ∧
+    ∀ x y, (inverse init exR1 ⟨-3, 2, 8, 20⟩).1.Mem x y ↔
+      (Box.mk (-3) 2 8 20).Mem x y ∧ ¬ exR1.Mem x y :=
+  inverse_exact init exR1 ⟨-3, 2, 8, 20⟩ exR1_canon (by decide)
+
+/-- pixman_region_union_rect (the rectangle is `rectBox`: `x + width` truncated as in C;
+    the destination may be the source) -/
+theorem unionRect_exact (c : Cfg) (al : Alias) (d s : Region) (x y : Int) (w h : Nat)
+    (hs : Canon s) (h1 : al = .first → d = s) (h2 : al ≠ .second) :
+    (unionRect c al d s x y w h).2 = true ∧ Canon (unionRect c al d s x y w h).1 ∧
+    ∀ px py, (unionRect c al d s x y w h).1.Mem px py ↔
+      s.Mem px py ∨ (rectBox c x y w h).Mem px py :=
+  unionRect_spec c al d s x y w h hs h1 h2
+
+example : ∀ px py, (unionRect c32 .first exR1 exR1 4 4 20 3).1.Mem px py ↔
+    exR1.Mem px py ∨ (Box.mk 4 4 24 7).Mem px py := by
+  have h := (unionRect_exact c32 .first exR1 exR1 4 4 20 3 exR1_canon (fun _ => rfl) (by decide)).2.2
+  rw [rectBox_inRange c32 (by decide) 4 4 20 3 (by decide) (by decide) (by decide) (by decide)] at h
+  exact h
+
+/-- pixman_region_intersect_rect -/
+theorem intersectRect_exact (c : Cfg) (d s : Region) (x y : Int) (w h : Nat) (hs : Canon s) :
+    (intersectRect c d s x y w h).2 = true ∧ Canon (intersectRect c d s x y w h).1 ∧
+    ∀ px py, (intersectRect c d s x y w h).1.Mem px py ↔
+      s.Mem px py ∧ (rectBox c x y w h).Mem px py :=
+  intersectRect_spec c d s x y w h hs
+
+example : ∀ px py, (intersectRect c16 exR2 exR1 4 4 20 3).1.Mem px py ↔
+    exR1.Mem px py ∧ (Box.mk 4 4 24 7).Mem px py := by
+  have h := (intersectRect_exact c16 exR2 exR1 4 4 20 3 exR1_canon).2.2
+  rw [rectBox_inRange c16 (by decide) 4 4 20 3 (by decide) (by decide) (by decide) (by decide)] at h
+  exact h
+
+/-- inside the coordinate range `rectBox` is the rectangle itself -/
+theorem rectBox_exact (c : Cfg) (hb : 1 ≤ c.bits) (x y : Int) (w h : Nat) (hx : c.min ≤ x)
+    (hy : c.min ≤ y) (hx2 : x + w ≤ c.max) (hy2 : y + h ≤ c.max) :
+    rectBox c x y w h = ⟨x, y, x + w, y + h⟩ :=
+  rectBox_inRange c hb x y w h hx hy hx2 hy2
+
+example : rectBox c16 (-5) 7 100 2 = ⟨-5, 7, 95, 9⟩ :=
+  rectBox_exact c16 (by decide) (-5) 7 100 2 (by decide) (by decide) (by decide) (by decide)
+
+/-- pixman_region_copy -/
+theorem copy_exact (d s : Region) (hs : Canon s) :
+    Canon (copy d s) ∧ ∀ x y, (copy d s).Mem x y ↔ s.Mem x y :=
+  ⟨hs, fun _ _ => Iff.rfl⟩
+
+example : Canon (copy exR2 exR1) ∧ ∀ x y, (copy exR2 exR1).Mem x y ↔ exR1.Mem x y :=
+  copy_exact exR2 exR1 exR1_canon
+
+/-- pixman_region_reset -/
+theorem reset_exact (b : Box) (hg : goodRect b = true) :
+    Canon (reset b) ∧ ∀ x y, (reset b).Mem x y ↔ b.Mem x y :=
+  reset_spec b hg
+
+example : Canon (reset ⟨1, 2, 3, 4⟩) ∧ ∀ x y, (reset ⟨1, 2, 3, 4⟩).Mem x y ↔ (Box.mk 1 2 3 4).Mem x y :=
+  reset_exact ⟨1, 2, 3, 4⟩ (by decide)
+
+/-- pixman_region_clear / pixman_region_init -/
+theorem clear_exact : Canon clear ∧ ∀ x y, ¬ clear.Mem x y :=
+  ⟨canon_init, not_mem_init⟩
+
+/-- pixman_region_init_rect (degenerate rectangles give the empty region) -/
+theorem initRect_exact (c : Cfg) (x y : Int) (w h : Nat) :
+    Canon (initRect c x y w h) ∧
+    ∀ px py, (initRect c x y w h).Mem px py ↔ (rectBox c x y w h).Mem px py :=
+  initRect_spec c x y w h
+
+example : ∀ px py, (initRect c32 3 4 10 0).Mem px py ↔ (rectBox c32 3 4 10 0).Mem px py :=
+  (initRect_exact c32 3 4 10 0).2
+
+/-- pixman_region_init_with_extents -/
+theorem initWithExtents_exact (e : Box) :
+    Canon (initWithExtents e) ∧ ∀ x y, (initWithExtents e).Mem x y ↔ e.Mem x y :=
+  initWithExtents_spec e
+
+example : Canon (initWithExtents ⟨5, 5, 1, 9⟩) ∧
+    ∀ x y, (initWithExtents ⟨5, 5, 1, 9⟩).Mem x y ↔ (Box.mk 5 5 1 9).Mem x y :=
+  initWithExtents_exact ⟨5, 5, 1, 9⟩
+
+/-- pixman_set_extents computes the tight bounding box of canonical rectangle data and keeps the
+    rectangles. -/
+theorem setExtents_exact (r : Region) (h : CanonData r) :
+    Canon (setExtents r) ∧ (setExtents r).rects = r.rects :=
+  ⟨setExtents_canon h, setExtents_rects r⟩
+
+example : Canon (setExtents ⟨⟨7, 7, 7, 7⟩, .heap exL1⟩) ∧
+    (setExtents ⟨⟨7, 7, 7, 7⟩, .heap exL1⟩).rects = exL1 :=
+  setExtents_exact ⟨⟨7, 7, 7, 7⟩, .heap exL1⟩ ⟨by decide, exL1_canon⟩
+
+
+/-! ## 4. validate / pixman_region_init_rects -/
+
+/-- step 1 of validate: the sort keeps the rectangles and orders them by (y1, x1).  Only this is
+    used of the sort, so the result of validate does not depend on which sort is used. -/
+theorem sortRects_spec (l : List Box) :
+    (∀ q, q ∈ sortRects l ↔ q ∈ l) ∧ (sortRects l).Pairwise KeyLe :=
+  ⟨fun q => mem_sortRects q l, sortRects_sorted l⟩
+
+/-- an unsorted, overlapping list with a degenerate member, for the non-vacuity examples -/
+def exBoxes : List Box := [⟨5, 5, 9, 9⟩, ⟨0, 0, 6, 6⟩, ⟨3, 3, 3, 8⟩, ⟨7, 2, 12, 4⟩, ⟨0, 0, 6, 6⟩]
+def exGood : List Box := [⟨5, 5, 9, 9⟩, ⟨0, 0, 6, 6⟩, ⟨7, 2, 12, 4⟩, ⟨0, 0, 6, 6⟩]
+
+/-- validate (steps 1–3: sort, scatter into regions under construction, pairwise union) on ANY
+    list of non-degenerate rectangles — any order, overlapping, repeated: the result is canonical
+    and has exactly the points of the list. -/
+theorem validateRects_exact (l : List Box) (hg : ∀ b ∈ l, goodRect b = true) :
+    Canon (validateRects l) ∧ ∀ x y, (validateRects l).Mem x y ↔ MemL l x y :=
+  validateRects_spec l hg
+
+example : Canon (validateRects exGood) ∧ ∀ x y, (validateRects exGood).Mem x y ↔ MemL exGood x y :=
+  validateRects_exact exGood (by decide)
+
+/-- pixman_region_init_rects on ANY list of boxes with representable coordinates (any order,
+    overlapping, degenerate): succeeds, the result is canonical, and its points are the union of
+    the boxes (degenerate boxes have no points). -/
+theorem initRects_exact (c : Cfg) (hb1 : 1 ≤ c.bits) (hb2 : c.bits ≤ 32) (boxes : List Box)
+    (hr : ∀ b ∈ boxes, BoxInRange c b) :
+    (initRects c boxes).2 = true ∧ Canon (initRects c boxes).1 ∧
+    ∀ x y, (initRects c boxes).1.Mem x y ↔ MemL boxes x y :=
+  initRects_spec c hb1 hb2 boxes hr
+
+/-- the same, spelled as "the union of the non-degenerate boxes" -/
+theorem initRects_union_of_good (c : Cfg) (hb1 : 1 ≤ c.bits) (hb2 : c.bits ≤ 32)
+    (boxes : List Box) (hr : ∀ b ∈ boxes, BoxInRange c b) (x y : Int) :
+    (initRects c boxes).1.Mem x y ↔ ∃ b ∈ boxes, goodRect b = true ∧ b.Mem x y := by
+  rw [(initRects_spec c hb1 hb2 boxes hr).2.2 x y]
+  constructor
+  · rintro ⟨b, hb, hm⟩
+    refine ⟨b, hb, ?_, hm⟩
+    rw [goodRect_iff]; simp only [Box.Mem] at hm; omega
+  · rintro ⟨b, hb, _, hm⟩; exact ⟨b, hb, hm⟩
+
+theorem exBoxes_inRange : ∀ b ∈ exBoxes, BoxInRange c16 b := by
+  intro b hb
+  simp only [exBoxes, List.mem_cons, List.not_mem_nil, or_false] at hb
+  rcases hb with rfl | rfl | rfl | rfl | rfl <;> simp only [BoxInRange] <;> decide
+
+example : (initRects c16 exBoxes).2 = true ∧ Canon (initRects c16 exBoxes).1 ∧
+    ∀ x y, (initRects c16 exBoxes).1.Mem x y ↔ MemL exBoxes x y :=
+  initRects_exact c16 (by decide) (by decide) exBoxes exBoxes_inRange
 
 end Pixman.Props.C05
